@@ -94,7 +94,7 @@ func (in *Interp) intrinsic(fn *ssa.Function, args []Value) (Value, bool) {
 var vfNames = map[string]bool{"vfInt": true, "vfPick": true, "vfU8": true, "vfU16": true, "vfU32": true, "vfU64": true, "vfI8": true, "vfI16": true, "vfI32": true, "vfI64": true,
 	"vfBool": true, "vfBytes": true, "vfString": true, "vfAssume": true, "vfAssert": true, "vfReach": true, "vfKnown": true, "vfObserve": true,
 	"vfThorough": true, "vfNative": true, "vfBound": true, "vfLoopBound": true, "vfExpectPanic": true, "vfUnwindIsViolation": true,
-	"vfConcurrent": true, "vfSettle": true, "vfAllocBytes": true, "vfRepeat": true, "vfAllocBytesIn": true, "vfAssertDeepEqual": true, "vfIgnorePanics": true, "vfSmallLen": true, "vfSeqCap": true, "vfDeepEqual": true, "vfIsErrorf": true}
+	"vfConcurrent": true, "vfSettle": true, "vfAllocBytes": true, "vfRepeat": true, "vfFixedMapOrder": true, "vfErrMentions": true, "vfAllocBytesIn": true, "vfAssertDeepEqual": true, "vfIgnorePanics": true, "vfSmallLen": true, "vfSeqCap": true, "vfDeepEqual": true, "vfIsErrorf": true}
 
 func (in *Interp) isVFIntrinsic(n string) bool { return vfNames[n] }
 
